@@ -1,0 +1,75 @@
+//go:build verif
+
+// Contracts for contract-based verification (/verif). Comment-only: with or without the
+// build tag "verif" this file adds nothing to the compiled package.
+
+package handler
+
+// Ghost events: calls the handlers make, and the outcome of the state transition they attempt.
+//@ event Render403 = call rendering.RenderForbiddenWithTypeMsg
+//@ event Render413 = call rendering.RenderRequestEntityTooLarge
+//@ event RenderAccepted = call rendering.RenderAccepted
+//@ event RenderInterop = call rendering.RenderInteropError
+//@ event RenderEvent = call rendering.(*EventRenderingService).RenderRuntimeEvent
+//@ event SendResponse = call interop.(InvokeResponseSender).SendResponse
+//@ event SendResponseTooLarge = ret interop.(InvokeResponseSender).SendResponse when typeis(r0, *interop.ErrorResponseTooLarge)
+//@ event SendResponseOK = ret interop.(InvokeResponseSender).SendResponse when r0 == nil
+//@ event SendResponseRefused = ret interop.(InvokeResponseSender).SendResponse when r0 == interop.ErrInvalidInvokeID || r0 == interop.ErrResponseSent
+//@ event SendError = call interop.(InvokeResponseSender).SendErrorResponse
+//@ event SendErrorOK = ret interop.(InvokeResponseSender).SendErrorResponse when r0 == nil
+//@ event SendInitError = call interop.(Server).SendInitErrorResponse
+//@ event StoreTrace = call appctx.StoreInvokeErrorTraceData
+//@ event RtNext = call core.(*Runtime).Ready
+//@ event RtNextRefused = ret core.(*Runtime).Ready when r0 != nil
+//@ event RtResponse = call core.(*Runtime).InvocationResponse
+//@ event RtResponseRefused = ret core.(*Runtime).InvocationResponse when r0 != nil
+//@ event RtError = call core.(*Runtime).InvocationErrorResponse
+//@ event RtErrorRefused = ret core.(*Runtime).InvocationErrorResponse when r0 != nil
+//@ event RtInitError = call core.(*Runtime).InitError
+//@ event RtInitErrorRefused = ret core.(*Runtime).InitError when r0 != nil
+//@ event RtRestoreNext = call core.(*Runtime).RestoreReady
+//@ event RtRestoreNextRefused = ret core.(*Runtime).RestoreReady when r0 != nil
+//@ event RtRestoreError = call core.(*Runtime).RestoreError
+//@ event RtRestoreErrorRefused = ret core.(*Runtime).RestoreError when r0 != nil
+//@ event RtResponseSent = call core.(*Runtime).ResponseSent
+
+//@ spec noSideEffects() bool = delta(SendResponse) == 0 && delta(SendError) == 0 && delta(SendInitError) == 0 && delta(StoreTrace) == 0 && delta(RtResponseSent) == 0 && delta(RenderEvent) == 0 && delta(RenderAccepted) == 0
+
+// C12: the transition comes first; a refused call is answered 403 and nothing else happens.
+
+//@ func (*invocationNextHandler).ServeHTTP
+//@   ensures [one-transition] delta(RtNext) == 1
+//@   ensures [refused-403] delta(RtNextRefused) == 1 ==> delta(Render403) == 1 && noSideEffects()
+//@   ensures [accepted-renders-event] delta(RtNextRefused) == 0 ==> delta(RenderEvent) == 1 && delta(Render403) == 0
+
+//@ func (*restoreNextHandler).ServeHTTP
+//@   ensures [one-transition] delta(RtRestoreNext) == 1
+//@   ensures [refused-403] delta(RtRestoreNextRefused) == 1 ==> delta(Render403) == 1 && noSideEffects()
+//@   ensures [accepted-renders-event] delta(RtRestoreNextRefused) == 0 ==> delta(RenderEvent) == 1 && delta(Render403) == 0
+
+//@ func (*restoreErrorHandler).ServeHTTP
+//@   ensures [one-transition] delta(RtRestoreError) == 1
+//@   ensures [refused-403] delta(RtRestoreErrorRefused) == 1 ==> delta(Render403) == 1 && noSideEffects()
+//@   ensures [accepted-202] delta(RtRestoreErrorRefused) == 0 ==> delta(RenderAccepted) == 1 && delta(Render403) == 0
+
+//@ func (*invocationResponseHandler).ServeHTTP
+//@   ensures [one-transition] delta(RtResponse) == 1
+//@   ensures [refused-403] delta(RtResponseRefused) == 1 ==> delta(Render403) == 1 && noSideEffects()
+//@   ensures [accepted-sends] delta(RtResponseRefused) == 0 ==> delta(Render403) == 0 && (delta(SendResponse) == 1 || delta(SendError) == 1)
+//@   ensures [ok-202] delta(SendResponseOK) == 1 ==> delta(RtResponseSent) == 1 && delta(RenderAccepted) == 1 && delta(Render413) == 0
+//@   ensures [stale-or-duplicate-400] delta(SendResponseRefused) == 1 ==> delta(RenderInterop) == 1 && delta(RtResponseSent) == 0 && delta(RenderAccepted) == 0 && delta(SendError) == 0
+//@   ensures [oversize-413] delta(SendResponseTooLarge) == 1 && delta(SendErrorOK) == 1 ==> delta(SendError) == 1 && delta(RtResponseSent) == 1 && delta(Render413) == 1 && delta(RenderAccepted) == 0
+//@   ensures [oversize-error-body] delta(SendResponseTooLarge) == 1 ==> delta(SendError) == 1
+
+//@ func (*invocationErrorHandler).ServeHTTP
+//@   ensures [one-transition] delta(RtError) == 1
+//@   ensures [refused-403] delta(RtErrorRefused) == 1 ==> delta(Render403) == 1 && noSideEffects()
+//@   ensures [accepted-sends] delta(RtErrorRefused) == 0 ==> delta(SendError) == 1 && delta(Render403) == 0
+//@   ensures [ok-202] delta(SendErrorOK) == 1 ==> delta(RtResponseSent) == 1 && delta(RenderAccepted) == 1 && delta(StoreTrace) == 1
+//@   ensures [refused-by-server-400] delta(SendError) == 1 && delta(SendErrorOK) == 0 ==> delta(RenderInterop) == 1 && delta(RtResponseSent) == 0 && delta(RenderAccepted) == 0
+
+//@ func (*initErrorHandler).ServeHTTP
+//@   ensures [at-most-one-transition] delta(RtInitError) + delta(RtRestoreError) == 1
+//@   ensures [refused-403] delta(RtInitErrorRefused) == 1 || delta(RtRestoreErrorRefused) == 1 ==> delta(Render403) == 1 && noSideEffects()
+//@   ensures [accepted-init-error] delta(RtInitError) == 1 && delta(RtInitErrorRefused) == 0 ==> delta(SendInitError) == 1 && delta(Render403) == 0
+//@   ensures [restore-branch-never-sends] delta(RtRestoreError) == 1 ==> delta(SendInitError) == 0
